@@ -14,6 +14,26 @@ CHECKS = {
         text="Bounded exhaustive: every array of length<=5 over 6 values (fill), every pair of meat series of length<=3/4 over 4 values, every 6-tuple over 5/6 values (bump), every month pattern with <=3/4 of 9 foods non-zero x 6 companion months x 4 thresholds (minimum human needs), each checked against the sentence of the property it implements. Right level because the helpers are pure functions whose defects show on tiny inputs.",
         design_ref="3/C18",
         note=TRUST + "; stand-in round-1 result object exposes exactly the attributes the helper reads"),
+    "C06": dict(
+        engine="herd", design_ref="3/C06",
+        technique="explicit-state exploration of the real monthly herd loop: product of constant feed/grass levels and deviation-bounded (k<=1 quick, k<=2 thorough) per-month environment answers; ledger invariant on every (species, month) state",
+        text="Bounded exhaustive over country x 3 breeding strategies x feeding-order mode x monthly feed/grass answers (5x5 constant series; every <=k-month departure from all-ample and from all-zero over 14 months with a 3x3 menu). Every (species, month) state is checked against the head-count ledger, non-negativity, milk->meat transfer identity, labour-hour capacity, availability and target floor. Right level: the defects live in the interaction of flows over months, which only running the loop on many environment histories exposes.",
+        note=TRUST + "; list alignment of the returned herd lists (stated in the evidence assumptions)"),
+    "C07": dict(
+        engine="herd", design_ref="3/C07",
+        technique="exhaustive product on feed_the_species + the herd-engine executions with a reference feeder run in lock-step on every (species, month)",
+        text="Full product of requirement x grass x feed x ruminant x herd size on the real feed_the_species, and every herd-engine execution compared month by month with a boring reference feeder (grass first for ruminants, then feed, in priority order): feed/grass used, fed and starving counts.",
+        note=TRUST + "; per-head energy requirement and digestion type read from the species objects"),
+    "C08": dict(
+        engine="supplies", design_ref="3/C08",
+        technique="exhaustive enumeration of country x single supply-option deviation x horizon through the real first-round parameter computation, plus full products of generated constants through each supply class; month-by-month comparison with a reference model written from the documentation; homogeneity metamorphic check",
+        text="Every series handed to the optimiser (outdoor/greenhouse crops, fish, grass, feed and biofuel demand, SCP, cellulosic sugar, seaweed area and growth, initial stock) is recomputed from the documented formula and compared at 1e-9 for every month of every enumerated configuration; length, finiteness, sign and exact scaling are checked too.",
+        note=TRUST + "; the constants dictionary produced by the option dispatcher is treated as input (C13 checks the dispatcher)"),
+    "C09": dict(
+        engine="supplies", design_ref="3/C09",
+        technique="same enumeration as C08 restricted to crop/greenhouse families + differential pairs (relocated vs not, expanded vs not) on every enumerated country/horizon/climate; scaled-baseline (x1e-3) no-quantisation check",
+        text="Outdoor output == grown x (1 - greenhouse share) x (1 - waste) for every month; greenhouse area schedule (zero until delay+5, monotone, capped); relocation/expansion never lower any month; no rounding/truncation (baseline x 1e-3 scales every month).",
+        note=TRUST),
 }
 
 NOT_YET = "check not built yet in this session (planned in DESIGN.md section 3); not claimed until its machinery exists"
@@ -52,6 +72,10 @@ def main():
         "engines": [
             {"name": "helpers", "path": "mc/props", "serves_properties": ["C18"],
              "kind_free_text": "explicit enumeration of inputs/operation sequences on the real Python code (hand-written explorer, /verif/mc)"},
+            {"name": "herd", "path": "mc/herd.py", "serves_properties": ["C06", "C07"],
+             "kind_free_text": "explicit-state exploration of animal_populations.main() under enumerated monthly environment answers"},
+            {"name": "supplies", "path": "mc/supplies.py", "serves_properties": ["C08", "C09"],
+             "kind_free_text": "enumeration of configurations through compute_parameters_first_round and of generated constants through the supply classes, reference model in lock-step"},
         ],
         "checks": checks,
         "not_applicable": na,
